@@ -372,10 +372,19 @@ def check_exception(ctx):
     detail = []
     for c2, f2, n in uses:
         st = model.enclosing_stmt(n)
-        ok = c2.name == cls and f2.name == "__init__" and isinstance(st, ast.Assign) and norm_src(st) == "self.delta = self.%s" % meth
+        ok = c2.name == cls and f2.name == "__init__" and isinstance(st, ast.Assign) and \
+            norm_src(st) in ("self.delta = self.%s" % meth, "delta = self.%s" % meth)
         if ok:
-            p = model.up(st)
-            ok = isinstance(p, ast.If) and norm_src(p.test) == "delta is None" and st in p.body
+            # the reference is taken only where the dominating guards establish `delta is None` (whatever the shape of the test)
+            from .. import cfg as C
+            g = C.CFG(f2)
+            facts = [a for a, t, lab, e in C.facts_at(g, g.node_of(st))]
+            ok = ("is", "delta", "None") in facts
+            if ok and norm_src(st).startswith("delta = "):
+                # `if delta is None: delta = self.delta_init` ... `self.delta = delta`: the local is stored unchanged afterwards
+                stores = [x for x in ast.walk(f2) if isinstance(x, ast.Assign) and any(is_self_attr(t, "delta") for t in x.targets)]
+                ok = len(stores) == 1 and norm_src(stores[0].value) == "delta" and \
+                    sum(1 for x in ast.walk(f2) if isinstance(x, ast.Name) and x.id == "delta" and isinstance(x.ctx, ast.Store)) == 1
         good &= ok
         detail.append("%s.%s: %s" % (c2.name, f2.name, norm_src(st)))
     ctx.ob("R16-DOO", good and len(uses) == 1, c.file, cls, "delta_init is installed only as the default delta (delta is None)",
